@@ -302,9 +302,26 @@ func c15Gen(r *run.Rng, small bool) *c15Grad {
 
 // setup drives the Renderer so that the next path is filled with the
 // gradient.
-func (q *c15Grad) setup(z *render.Renderer, r *run.Rng) {
+func (q *c15Grad) setup(c *run.Ctx, z *render.Renderer, r *run.Rng) {
 	n := len(q.offs)
 	cbase, nbase := r.Intn(64), r.Intn(64)
+	// One gradient in five takes its stop colours from where a new graphic finds
+	// them: the custom palette the colour registers are initialised from. The
+	// Renderer is Reset with such a palette and the stop registers (all but at most
+	// one) are never written.
+	fromPalette, keep := r.Chance(1, 5), -1
+	if fromPalette {
+		pal := ivg.DefaultPalette
+		for i, c := range q.cols {
+			pal[(cbase+i)&63] = c
+		}
+		if r.Bool() {
+			keep = (cbase + r.Intn(n)) & 63
+			pal[keep] = color.RGBA{0x11, 0x22, 0x33, 0x44}
+		}
+		z.Reset(q.vb, pal)
+		c.Count("stop_colours_left_as_initialised_from_the_palette", 1)
+	}
 	z.SetNSel(uint8(nbase))
 	for i, v := range q.m {
 		z.SetNReg(uint8(6-i), false, v)
@@ -313,7 +330,12 @@ func (q *c15Grad) setup(z *render.Renderer, r *run.Rng) {
 		z.SetNReg(0, true, o)
 	}
 	z.SetCSel(uint8(cbase))
-	for _, c := range q.cols {
+	for i, c := range q.cols {
+		if fromPalette && (cbase+i)&63 != keep {
+			// this stop colour is the one the register was initialised with
+			z.SetCSel(uint8((cbase + i + 1) & 63))
+			continue
+		}
 		z.SetCReg(0, true, ivg.RGBAColor(c))
 	}
 	sel := (cbase + n + r.Intn(64-n)) & 63 // outside the stop range
@@ -517,7 +539,7 @@ func c15DrawAndJudge(c *run.Ctx, zp *render.Renderer, rz *rec.Raster, q *c15Grad
 				zp.SetLOD(0, float32(math.Inf(1)))
 				c.Count("gradient_after_an_unpainted_path", 1)
 			}
-			q.setup(zp, r)
+			q.setup(c, zp, r)
 		}
 		zp.StartPath(0, q.vb.MinX, q.vb.MinY)
 		zp.AbsLineTo(q.vb.MaxX, q.vb.MinY)
@@ -640,7 +662,7 @@ func c15Pixels(c *run.Ctx, idx uint64) {
 	z.SetRasterizer(&vec.Rasterizer{Dst: img, DrawOp: draw.Src}, q.rect)
 	z.Reset(q.vb, ivg.DefaultPalette)
 	ok := c.Guard("render", func() interface{} { return q.desc() }, func() {
-		q.setup(&z, r)
+		q.setup(c, &z, r)
 		// a path slightly larger than the viewBox so that every pixel of the rectangle is fully covered
 		dx, dy := (q.vb.MaxX-q.vb.MinX)*0.5+1, (q.vb.MaxY-q.vb.MinY)*0.5+1
 		right := q.vb.MaxX + dx
